@@ -534,6 +534,37 @@ def oracle(ctx: Ctx, Time, labels, src, conv):
                                 {"a": a, "b": b, "element": k, "jd1": float(a1[sub[k]]), "jd2": float(a2[sub[k]]),
                                  "array_jd1": [float(x) for x in a1[sub]], "array_jd2": [float(x) for x in a2[sub]]})
                     break
+            # histories on one object: the array has been converted to b above; arrays derived from it by indexing (reversal,
+            # slice, mask, index array) convert to the elements of their own epochs - and a part converted first does not
+            # decide what the whole array converts to
+            m_ = np.array([rng.random() < 0.5 for _ in range(n)])
+            sels = [("reversed", slice(None, None, -1)), ("slice", slice(1, min(n, 4))), ("mask", m_),
+                    ("index-array", np.array([rng.randrange(n) for _ in range(min(n, 6))]))]
+            for sname, sel in sels:
+                try:
+                    dq1, dq2 = parts(getattr(src[a][sel], b))
+                except Exception as ex:
+                    ctx.violate(f"derived-raises:{a}->{b}", f"{sname}: {type(ex).__name__}: {ex}", {"a": a, "b": b, "derived": sname})
+                    continue
+                ctx.count("oracle-derived-array")
+                w1, w2 = r1[sel], r2[sel]
+                if len(dq1) != len(w1) or not (np.array_equal(dq1, w1) and np.array_equal(dq2, w2)):
+                    k = next((i for i in range(min(len(dq1), len(w1))) if dq1[i] != w1[i] or dq2[i] != w2[i]), 0)
+                    ctx.violate(f"alignment-derived:{a}->{b}", f"after converting an array, converting its {sname} part gives {len(dq1)} epochs that are not "
+                                f"the conversions of that part's {len(w1)} epochs", {"a": a, "b": b, "derived": sname, "element": k,
+                                 "jd1": float(np.atleast_1d(a1[sel])[k]) if len(w1) else None, "jd2": float(np.atleast_1d(a2[sel])[k]) if len(w1) else None})
+            try:
+                e_ = [rng.randrange(n) for _ in range(5)]
+                u = Time(a1[e_], val2=a2[e_], fmt="jd", scale=a)
+                getattr(u[:1], b)
+                uq1, uq2 = parts(getattr(u, b))
+                ctx.count("oracle-derived-array")
+                if len(uq1) != 5 or not (np.array_equal(uq1, r1[e_]) and np.array_equal(uq2, r2[e_])):
+                    ctx.violate(f"alignment-derived:{a}->{b}", "after converting the first element of an array as a slice, converting the array "
+                                f"gives {len(uq1)} epochs / other values", {"a": a, "b": b, "derived": "part-first", "array_jd1": [float(x) for x in a1[e_]],
+                                                                            "array_jd2": [float(x) for x in a2[e_]]})
+            except Exception as ex:
+                ctx.violate(f"derived-raises:{a}->{b}", f"part-first: {type(ex).__name__}: {ex}", {"a": a, "b": b})
             for i in idxs:
                 for shape in ("scalar", "len1"):
                     try:
